@@ -8,9 +8,9 @@ ROLES = {
 BLOCKS = {("btc", "taker"): "{3, 504}", ("btc", "maker"): "{1, 1008}", ("lbtc", "taker"): "{2, 60}", ("lbtc", "maker"): "{1, 10080}"}
 
 
-def rec(name, chain, inits, steps, faults=0, crashes=0, swaps=1, adversary=False, blocks=None, side="taker"):
+def rec(name, chain, inits, steps, faults=0, crashes=0, swaps=1, adversary=False, blocks=None, side="taker", ver="current", neglimit=False):
     return ('[name |-> "%s", chain |-> "%s", inits |-> {%s}, maxsteps |-> %d, maxfaults |-> %d, maxcrashes |-> %d, maxswaps |-> %d, '
-            'blocks |-> %s, adversary |-> %s]') % (name, chain, ", ".join('"%s"' % i for i in inits), steps, faults, crashes, swaps,
+            'blocks |-> %s, adversary |-> %s, ver |-> "' + ver + '", neglimit |-> ' + ("TRUE" if neglimit else "FALSE") + ']') % (name, chain, ", ".join('"%s"' % i for i in inits), steps, faults, crashes, swaps,
                                                    blocks or BLOCKS[(chain, side)], "TRUE" if adversary else "FALSE")
 
 
@@ -23,12 +23,23 @@ def configs(tier):
         out.append(rec("%s_btc_fault" % role, "btc", [init], 5 if deep else 4, faults=1, side=side))
         out.append(rec("%s_btc_crash" % role, "btc", [init], 6 if deep else 4, crashes=1, side=side))
         out.append(rec("%s_btc_adv" % role, "btc", [init], 4 if deep else 3, swaps=2, adversary=True, side=side))
+        out.append(rec("%s_lbtc_fault" % role, "lbtc", [init], 5 if deep else 3, faults=1, side=side))
+        # a crash followed by a failing service during recovery (one crash and one failure in the same behaviour)
+        out.append(rec("%s_btc_crashfault" % role, "btc", [init], 5 if deep else 4, faults=1, crashes=1, side=side))
         if deep:
             out.append(rec("%s_lbtc_crash" % role, "lbtc", [init], 6, crashes=1, side=side))
-            out.append(rec("%s_lbtc_fault" % role, "lbtc", [init], 5, faults=1, side=side))
+    # C12: negative premium limits and extreme premiums (requesters)
+    out.append(rec("out_sender_btc_premium", "btc", ["swapout"], 5 if deep else 4, side="taker", neglimit=True))
+    out.append(rec("in_sender_btc_premium", "btc", ["swapin"], 4 if deep else 3, side="maker", neglimit=True))
+    for role, (init, side) in ROLES.items():
+        pass
     # C26: a maker's swap ends in a CSV refund, then the same peer asks again / the node initiates again
     out.append(rec("in_sender_btc_quar", "btc", ["swapin", "swap_out_request", "swapout"], 6 if deep else 5, swaps=2, side="maker"))
     out.append(rec("out_receiver_btc_quar", "btc", ["swap_out_request", "swap_in_request", "swapin"], 6 if deep else 5, swaps=2, side="maker"))
+    # C29: the node is restarted on a database written by an older release (or without a version) in every reachable swap state
+    for role, (init, side) in ROLES.items():
+        for ver in ("old", "none"):
+            out.append(rec("%s_btc_upgrade_%s" % (role, ver), "btc", [init], 5 if deep else 4, side=side, ver=ver))
     out.append(rec("mixed_btc_adv", "btc", ["swapout", "swap_in_request", "swapin", "swap_out_request"], 4 if deep else 3, swaps=2,
                    adversary=True, blocks="{3}"))
     return out
